@@ -14,6 +14,10 @@ r = subprocess.run(["git", "-C", "/repo", "apply", patch], capture_output=True, 
 if r.returncode != 0:
     print("patch does not apply:", r.stderr); sys.exit(2)
 res = {}
+import signal
+def _bail(signum, frame):
+    raise KeyboardInterrupt()
+signal.signal(signal.SIGTERM, _bail)
 try:
     for p in props:
         t0 = time.time()
